@@ -24,7 +24,8 @@ PID = "C07"
 RULE = (
     "one case = one line object (kind, version, field values) or one value object; sub-spaces are "
     "full products of the per-field alphabets where small, otherwise all pairs of fields complete "
-    "with the remaining fields cycled; every case is distinct by construction; non-trivial = the "
+    "with the remaining fields cycled; free text of info lines = all token sequences up to a length over "
+    "the characters that structure a line; every case is distinct by construction; non-trivial = the "
     "line was written and parsed back (all cases)"
 )
 ASSUMPTIONS = [
@@ -42,6 +43,8 @@ ASSUMPTIONS = [
     "time/value, key and time signature values; adjusted offsets, channel and track are not compared",
     "info attributes partSequence and mergedFrom have no 1.0.0 equivalent (to_v1 may raise MatchError); "
     "text-valued list attributes (subtitle, tempoIndication, beatSubDivision) are only checked for kind",
+    "free text is given without outer white space (the formats strip it); the empty string inside the quotes "
+    "of a 0.x value and as a list element is not generated (its text is not distinguishable from other values)",
     "trusted: Python re/str/float formatting, decimal, fractions, numpy integer arithmetic",
 ]
 CHUNK = 200
@@ -922,6 +925,11 @@ def eval_case(case):
         out = eval_version(case, res)
     else:
         out = eval_line(case, res)
+    if k == "info" and out == "ok" and case["a"]["val"]["t"] in ("str", "list"):
+        # free text that contains the sequence closing an info line is a class of its own
+        x = case["a"]["val"]["x"]
+        if any(")." in s for s in ([x] if isinstance(x, str) else x)):
+            out = "ok-text-with-closing-sequence"
     res.nontrivial = out not in ("zero-sum",)
     res.outcome = "%s:%s" % (k, "violation" if res.violations else out)
     return res
@@ -999,6 +1007,64 @@ def info_fields(v, x):
     out.append(("keySignature", val_fields("val", "key", A.keys_for(A.key_spelling(v, "info")))))
     out.append(("timeSignature", val_fields("val", "time", A.times_for(A.time_is_list(v, "info")))))
     return out
+
+
+def text_attrs(v):
+    """(string-valued attributes, text-list attributes) of the info lines of one version"""
+    if is_v1(v):
+        return list(A.INFO_V1["str"]), []
+    return A.INFO_V0["qstr"] + A.INFO_V0["str"], list(A.INFO_V0["list"])
+
+
+def text_pick(s, vi, n):
+    """index in 0..n-1: a fixed function of the text and the version (stable over tiers)"""
+    return (sum((j + 1) * ord(ch) for j, ch in enumerate(s)) + len(s) + vi) % n
+
+
+def info_text_cases(x):
+    """free text in info lines; yields (case, in_quick_core).
+
+    string values: every concatenation of 1-3 tokens of the core token set (thorough: also of the extended
+    set, and 4 tokens of the core set); up to 2 tokens (thorough: 3) with every string attribute of every
+    version, the longest length with one attribute picked by a fixed function of text and version.  The
+    empty string is enumerated where the format has a text for it (1.0.0 and the unquoted partSequence).
+    list values (0.x): one element of 1-2 tokens (thorough: 1-3) without the separating comma, alone and
+    before/after a plain element; single-element lists with every list attribute of every 0.x version,
+    two-element lists with one picked attribute."""
+    toks = A.TEXT_TOKENS_X if x else A.TEXT_TOKENS
+    extra = set(A.TEXT_TOKENS_X) - set(A.TEXT_TOKENS)
+    full_len = 3 if x else 2
+
+    def is_core(s):
+        return not any(ch in extra for ch in s)
+
+    def sval(s):
+        return dict(t="str", x=s)
+
+    for vi, v in enumerate(A.ALL_VERSIONS):
+        sattrs, lattrs = text_attrs(v)
+        for at in sattrs:
+            if is_v1(v) or at in A.INFO_V0["str"]:
+                yield dict(k="info", v=v, a=dict(attr=at, val=sval(""))), True
+        for n in range(1, full_len + 1):
+            for s in A.text_strings(toks, n):
+                picked = sattrs[text_pick(s, vi, len(sattrs))]
+                for at in sattrs:
+                    yield dict(k="info", v=v, a=dict(attr=at, val=sval(s))), (is_core(s) and (n <= 2 or at == picked))
+        # the longest strings: one attribute each
+        n = full_len + 1
+        for s in A.text_strings(A.TEXT_TOKENS, n):
+            yield dict(k="info", v=v, a=dict(attr=sattrs[text_pick(s, vi, len(sattrs))], val=sval(s))), n == 3
+        if not lattrs:
+            continue
+        for n in range(1, full_len + 1):
+            for s in A.text_strings(toks, n, exclude=(",",)):
+                c = n <= 2 and is_core(s)
+                for at in lattrs:
+                    yield dict(k="info", v=v, a=dict(attr=at, val=dict(t="list", x=[s]))), c
+                at = lattrs[text_pick(s, vi, len(lattrs))]
+                yield dict(k="info", v=v, a=dict(attr=at, val=dict(t="list", x=[s, "x"]))), c
+                yield dict(k="info", v=v, a=dict(attr=at, val=dict(t="list", x=["x", s]))), c
 
 
 def scoreprop_values(small):
@@ -1170,6 +1236,7 @@ def version_cases(x):
 QUICK_LIMIT = 1500
 THOROUGH_LIMIT = 45000
 NBLOCKS = 8
+NBLOCKS_TEXT = 64
 
 BOUNDS = {
     "snote": "score-note lines of 0.1.0-0.5.0 and 1.0.0: anchor x 105 pitch spellings + rest x measure x beat x offset x duration x two beat times x attribute list",
@@ -1180,6 +1247,14 @@ BOUNDS = {
     "ornament": "trill lines (0.x) and ornament lines with type lists of length 0-3 (1.0.0)",
     "pedal": "sustain and soft lines, all versions: time {0,1,12345,10^6} x value {0,1,63,64,127}",
     "info": "info lines: every attribute of every version x its value alphabet (strings, floats, ints, lists of length 0-3, versions, 30 keys + alternative/list forms, time signatures)",
+    "info-text": "free text in info lines, all versions: string values = all concatenations of 1-3 tokens of "
+                 "{a 1 space ( ) . , ' [ ] - info(} without outer white space (<=2 tokens x every string attribute, 3 tokens x one "
+                 "attribute picked by a fixed function of text and version), the empty string for 1.0.0 and partSequence; "
+                 "text lists of 0.x (subtitle, tempoIndication, beatSubDivision, beatSubdivision, mergedFrom) = one element of "
+                 "1-2 tokens without comma, alone (x every list attribute) and before/after a plain element (one picked attribute); "
+                 "thorough scope: tokens + {\" \\ : / e-acute}, strings of <=3 tokens x every attribute, 4 core tokens x one "
+                 "attribute, list elements of <=3 tokens. Not generated: the empty string in quoted 0.x values and as a list "
+                 "element (their texts '' and [] are not distinguishable from other values)",
     "meta": "meta lines 0.3.0-0.5.0: key (30 + alternatives) / time signature x measure x time",
     "scoreprop": "scoreprop lines 1.0.0: attribute/value x measure x beat x offset x time",
     "section": "section lines 1.0.0: four 4-decimal times x repeat-end list",
@@ -1199,6 +1274,21 @@ def spaces(tier, seed):
     block = seed % NBLOCKS
     for name, fn in (("version", version_cases), ("timesig", time_cases), ("keysig", key_cases), ("duration", duration_cases)):
         out.append(Space(name, (lambda fn=fn: fn(thorough)), exhaustive=True, bounds=BOUNDS[name] + " - complete"))
+
+    def text_cases():
+        if thorough:
+            for c, _ in info_text_cases(True):
+                yield c
+            return
+        for c, _ in info_text_cases(False):
+            yield c
+        rest = (c for c, in_core in info_text_cases(True) if not in_core)
+        for c in A.shard(rest, seed % NBLOCKS_TEXT, NBLOCKS_TEXT):
+            yield c
+
+    out.append(Space("info-text", text_cases, exhaustive=True, bounds=BOUNDS["info-text"] + (
+        " - complete" if thorough else " - complete core; plus every %d-th case (offset VERIF_SEED mod %d) of the rest of the "
+        "thorough enumeration" % (NBLOCKS_TEXT, NBLOCKS_TEXT))))
     for name in ("pedal", "info", "meta", "scoreprop", "section", "stime-ptime", "ornament", "insertion", "note",
                  "snote", "deletion", "pair"):
         def cases(name=name):
